@@ -132,3 +132,21 @@ Theorem C04_every_state_json_has_such_a_file :
               (exists x, skip_ws P = (123 :: x)%N) /\ (exists y, P = (y ++ [125%N])%list).
 Proof. exact sj_state_has_a_file. Qed.
 Print Assumptions C04_every_state_json_has_such_a_file.
+
+(* ---------- and for the very bytes the library writes (JsonWrite.v: serde_json::to_writer_pretty of the derived
+   Serialize, as a function) ---------- 
+   [w_pstate s] / [w_fstate r q] are the texts disk_io::write produces; the harness checks on every run that each state
+   file the library wrote is a fixed point of read-then-write (pj_canonical / sj_canonical).  Cut anywhere, they are
+   unreadable - no hypothesis on the shape of the text is left. *)
+From UV Require Import JsonStateProofs JsonStateExist JsonWrite JsonWriteProofs.
+Theorem C04_torn_written_patches_state_is_garbage :
+  forall s p r, pstate_in_range s -> pstate_utf8 s -> w_pstate s = (p ++ r)%list -> r <> [] -> pj_of_file p = JGarbage.
+Proof. exact torn_written_pstate. Qed.
+Print Assumptions C04_torn_written_patches_state_is_garbage.
+
+Theorem C04_torn_written_state_json_is_garbage :
+  forall rl q p r,
+    utf8_valid (bytes_of rl) = true -> Forall fevent_in_range q -> Forall fevent_utf8 q ->
+    w_fstate rl q = (p ++ r)%list -> r <> [] -> sj_of_file p = JGarbage.
+Proof. exact torn_written_sstate. Qed.
+Print Assumptions C04_torn_written_state_json_is_garbage.
